@@ -17,7 +17,8 @@ Inductive op :=
 | OReply (c o i : N) (ret : bool)
 | OWait (c o : N) (timed : bool) (out : option wres)      (* None: still blocked after 200 ms *)
 | OClose (c : N) (ret : bool)                             (* Client.Close; false: still blocked after 200 ms *)
-| OCloseQ.
+| OCloseQ
+| OPanic (k : N).                                         (* an API call panicked (1 send 2 wait 3 close 4 reply 5 other) *)
 
 (** Calls that were blocked and returned as a consequence of a later call. *)
 Inductive comp := CSend (p : N) (r : sres) | CClose (c : N).
@@ -82,6 +83,10 @@ Definition queue_closed_at_end (ops : list op) : bool :=
 Definition no_block_forever (ops : list op) (still : list N) : bool :=
   if queue_closed_at_end ops then match still with [] => true | _ => false end else true.
 
+(** *** no call crashes *)
+Definition no_panic (ops : list op) : bool :=
+  forallb (fun o => match o with OPanic _ => false | _ => true end) ops.
+
 (** *** the client discipline under which clauses 1 and 2 are promised
     (FreeMessage's contract: "the context must no longer reference the message"):
     a message is freed only before it was sent or after its reply was taken, it is sent
@@ -109,7 +114,8 @@ Inductive cevent :=
 | CRecv (i : N)                      (* a subscriber read ID i from Recv *)
 | CGot (own named : N)               (* a requester took a reply naming [named] for its request [own] *)
 | CSendAfterClose (failed : bool)    (* a send started after Queue.Close returned *)
-| CWaitAfterClose (returned : bool). (* a wait started after Queue.Close returned *)
+| CWaitAfterClose (returned : bool)  (* a wait started after Queue.Close returned *)
+| CBad (k : N).                      (* 1 Client.Close did not return, 2 a call panicked, 3 a requester never came back *)
 
 Fixpoint conc_recv_ids (l : list cevent) : list N :=
   match l with [] => [] | CRecv i :: tl => i :: conc_recv_ids tl | _ :: tl => conc_recv_ids tl end.
@@ -120,4 +126,5 @@ Definition conc_ok (l : list cevent) : bool :=
                        | CGot own named => own =? named
                        | CSendAfterClose b | CWaitAfterClose b => b
                        | CRecv _ => true
+                       | CBad _ => false
                        end) l.
